@@ -1872,7 +1872,7 @@ func H_C05_chunkIdentity(n int) {
 	}
 	for i := range f.chunks {
 		a, b := f.chunks[i].metadata, g.chunks[i].metadata
-		verifAssert(a.finalPath == b.finalPath, "C05/C06: a re-attached mrp looks for each chunk in the directory the interrupted mrp created for it (so that a restart re-executes only the work that failed)")
+		verifAssert(a.finalPath == b.finalPath, "C03/C05/C06: a re-attached mrp looks for each chunk in the directory the interrupted mrp created for it (so that a restart re-executes only the work that failed)")
 		verifAssert(f.chunks[i].fqname == g.chunks[i].fqname && a.journalPath == b.journalPath, "C05/C11: a chunk keeps its name and journal name across a restart")
 	}
 }
